@@ -749,7 +749,20 @@ impl<'env> Executor<'env> {
                         }));
                     let args = stack.get_call_args(*arg_count);
                     let arg_count = args.len();
-                    a = ctx_ok!(filter.call(state, args));
+                    #[cfg(feature = "verif_hooks")]
+                    let verif_before = crate::verif_hooks::balance::call_snapshots()
+                        .then(|| state.verif_snapshot());
+                    let call_rv = filter.call(state, args);
+                    #[cfg(feature = "verif_hooks")]
+                    if let Some(verif_before) = verif_before {
+                        crate::verif_hooks::balance::nested(
+                            "filter",
+                            call_rv.is_ok(),
+                            verif_before,
+                            state.verif_snapshot(),
+                        );
+                    }
+                    a = ctx_ok!(call_rv);
                     stack.drop_top(arg_count);
                     stack.push(a);
                 }
@@ -766,7 +779,20 @@ impl<'env> Executor<'env> {
                     }));
                     let args = stack.get_call_args(*arg_count);
                     let arg_count = args.len();
-                    a = ctx_ok!(test.call(state, args));
+                    #[cfg(feature = "verif_hooks")]
+                    let verif_before = crate::verif_hooks::balance::call_snapshots()
+                        .then(|| state.verif_snapshot());
+                    let call_rv = test.call(state, args);
+                    #[cfg(feature = "verif_hooks")]
+                    if let Some(verif_before) = verif_before {
+                        crate::verif_hooks::balance::nested(
+                            "test",
+                            call_rv.is_ok(),
+                            verif_before,
+                            state.verif_snapshot(),
+                        );
+                    }
+                    a = ctx_ok!(call_rv);
                     stack.drop_top(arg_count);
                     stack.push(Value::from(a.is_true()));
                 }
@@ -799,7 +825,22 @@ impl<'env> Executor<'env> {
                             }
                             recurse_loop!(true, loop_object);
                         } else {
-                            ctx_ok!(func.call(state, args))
+                            {
+                                #[cfg(feature = "verif_hooks")]
+                                let verif_before = crate::verif_hooks::balance::call_snapshots()
+                                    .then(|| state.verif_snapshot());
+                                let call_rv = func.call(state, args);
+                                #[cfg(feature = "verif_hooks")]
+                                if let Some(verif_before) = verif_before {
+                                    crate::verif_hooks::balance::nested(
+                                        "function",
+                                        call_rv.is_ok(),
+                                        verif_before,
+                                        state.verif_snapshot(),
+                                    );
+                                }
+                                ctx_ok!(call_rv)
+                            }
                         }
                     } else {
                         bail!(Error::new(
@@ -814,14 +855,40 @@ impl<'env> Executor<'env> {
                 Instruction::CallMethod(name, arg_count) => {
                     let args = stack.get_call_args(*arg_count);
                     let arg_count = args.len();
-                    a = ctx_ok!(args[0].call_method(state, name, &args[1..]));
+                    #[cfg(feature = "verif_hooks")]
+                    let verif_before = crate::verif_hooks::balance::call_snapshots()
+                        .then(|| state.verif_snapshot());
+                    let call_rv = args[0].call_method(state, name, &args[1..]);
+                    #[cfg(feature = "verif_hooks")]
+                    if let Some(verif_before) = verif_before {
+                        crate::verif_hooks::balance::nested(
+                            "method",
+                            call_rv.is_ok(),
+                            verif_before,
+                            state.verif_snapshot(),
+                        );
+                    }
+                    a = ctx_ok!(call_rv);
                     stack.drop_top(arg_count);
                     stack.push(a);
                 }
                 Instruction::CallObject(arg_count) => {
                     let args = stack.get_call_args(*arg_count);
                     let arg_count = args.len();
-                    a = ctx_ok!(args[0].call(state, &args[1..]));
+                    #[cfg(feature = "verif_hooks")]
+                    let verif_before = crate::verif_hooks::balance::call_snapshots()
+                        .then(|| state.verif_snapshot());
+                    let call_rv = args[0].call(state, &args[1..]);
+                    #[cfg(feature = "verif_hooks")]
+                    if let Some(verif_before) = verif_before {
+                        crate::verif_hooks::balance::nested(
+                            "object",
+                            call_rv.is_ok(),
+                            verif_before,
+                            state.verif_snapshot(),
+                        );
+                    }
+                    a = ctx_ok!(call_rv);
                     stack.drop_top(arg_count);
                     stack.push(a);
                 }
